@@ -20,6 +20,21 @@ CHECKS["C02"] = ("exploration",
   "Generated scenarios (C01 programs plus extra-data, aligned, ZipCrypto, raw-copied and appended entries) are finished and the bytes are judged by a strict parser written from APPNOTE that shares no code with the crate (offsets/counts/sizes exact, local==central, UTF-8 flag, ZIP64 consistency incl. sentinel fields, TLV extras, decoded CRC/size, no gaps/overlaps) and compared field-by-field with the model; a sample of archives is also judged by CPython zipfile and unzip -t. Lengths around 65535/65536 for names, comments and extra data are enumerated: success with a corrupt archive or a panic is the violation.",
   "Strict parser, CPython and Info-ZIP are the trusted judges (the parser is self-tested against CPython/unzip in setup); codecs trusted. Multi-GiB ZIP64 cases are in C08.",
   "DESIGN.md §4 C02")
+CHECKS["C03"] = ("exploration",
+  "differential against an independent reference builder: proptest-generated archive specs (the spec is the model) read through the seekable reader; second producer CPython zipfile",
+  "Specs for an independent APPNOTE-based builder exercise every layout freedom named in the property (data descriptors in 4 shapes, ZIP64 values forced in any subset/order, local ZIP64, unknown extras, comments, DOS/Unix/other systems, any attributes and DOS time bits, shuffled central order, gaps, junk prefix up to 64 KiB, trailing garbage, ZIP64 end records, unsupported methods, duplicate names); every accessor, offset and the content is compared with the spec; lookups by name/index incl. not-found. 300 (quick) archives written by CPython zipfile (seekable/unseekable sinks, force_zip64, prefix) are compared the same way.",
+  "The independent builder is the trusted producer (validated against CPython and unzip -t in setup); from_utf8_lossy/CP437 decoding oracles are C19's; codecs trusted.",
+  "DESIGN.md §4 C03")
+CHECKS["C06"] = ("exploration",
+  "exhaustive enumeration of names over a 5-letter alphabet and of component sequences, plus proptest Unicode names, judged by validity predicates and an independent string model",
+  "Every string over {a . / \\ NUL} up to length 8 (quick) / 10 (thorough), every sequence of up to 4/6 components from {a,b,.,..,empty} with each separator, leading/trailing/doubled separators and NUL positions, and random Unicode/control names up to 64 KiB are stored in generated archives and observed through the seekable reader's ZipFile, the streaming reader's ZipFile and ZipStreamFileMetadata. The results of enclosed_name/mangled_name are judged by predicates on the result (relative, no NUL, never climbs, only ordinary components, lexically inside any base) and by a string model (Some exactly for safe names).",
+  "Unix host path semantics (as the property states). Exhaustive only over the stated finite alphabets/bounds.",
+  "DESIGN.md §4 C06")
+CHECKS["C19"] = ("exploration",
+  "exhaustive enumeration of all 1- and 2-byte names/comments in both flag modes against the CPython CP437 table / std lossy UTF-8; proptest byte strings and writer inputs",
+  "All 256 single-byte and all 65536 two-byte names (and comments) with the language-encoding flag set and clear are placed in generated archives and read through the seekable reader, the streaming reader and the stream metadata; random byte strings up to 64 KiB incl. overlong/surrogate/truncated UTF-8; arbitrary Rust strings through every entry-creating writer call (incl. the encryption option) with the stored bytes checked by the independent parser.",
+  "CP437 table generated from CPython (regenerated and compared in setup); from_utf8_lossy is the UTF-8 oracle, cross-checked against CPython's 'replace' decoder on 2000 strings per run.",
+  "DESIGN.md §4 C19")
 PENDING = {}
 props = [json.loads(l) for l in open(os.path.join(ROOT, "properties.jsonl"))]
 checks = []
